@@ -716,12 +716,100 @@ def rule_inferred_dimension(F, R):
     R.ok("R-C16-6", "library sites", "include/nano/tensor:1", "%d uses of the -1 inference inside the tensor library's own operations" % sites)
 
 
+def rule_integral_empty(F, R):
+    """R-C16-7: integral_t<1>::get reads element 0 unconditionally and the rank-N step hands every sub-tensor down to it, so get() may only
+    be entered with a tensor all of whose extents are positive. Entry points from outside the recursion must establish that: a guard on the
+    total size (`size() > 0`: a product of extents is positive only if every extent is) does, a guard on the first extent alone does not - a
+    3 x 0 tensor passes it and the recursion reads and writes element 0 of an empty row. Inside get(), an access at a literal index
+    (`tensor(0)`, `X(0)`) is covered either by that precondition or by the loop / if that bounds the index."""
+    fs = [f for f in F.functions.values() if f.relfile == "include/nano/tensor/integral.h" and f.body is not None]
+    gets = [f for f in fs if f.name == "get" and "integral_t" in (f.cls or "")]
+    if not gets:
+        raise AnalysisBroken("integral_t::get not found")
+    n = 0
+
+    def peel(x):
+        x = skip(x)
+        while x is not None and x["k"] in ("cast", "paren") and x.get("c"):
+            x = skip(x["c"][0])
+        return x
+
+    def guard_facts(f, site):
+        """{decl id: 'all' | 'dim0'} established for tensor variables by the ifs / loops enclosing `site`"""
+        facts = {}
+        child = site
+        for a_ in f.ancestors(site):
+            conds = []
+            if a_["k"] == "if" and any(z is child for z in walk(a_["c"][a_["r"].index("then")])):
+                conds.append(a_["c"][a_["r"].index("cond")])
+            if a_["k"] in ("for", "while") and "body" in a_.get("r", ()) and any(z is child for z in walk(a_["c"][a_["r"].index("body")])):
+                conds.append(a_["c"][a_["r"].index("cond")])
+            for cnd in conds:
+                c_ = peel(cnd)
+                if c_["k"] == "bin" and c_["op"] in ("<", "!="):
+                    lo, hi = peel(c_["c"][0]), peel(c_["c"][1])
+                    # 0 < X.size() / index < size0 (= X.size<0>()) with a non-negative index
+                    for small, big in ((lo, hi),):
+                        b_ = big
+                        if b_["k"] == "ref":
+                            v, _ = find_var(f, b_.get("d"))
+                            b_ = peel(v["c"][0]) if v is not None and v.get("c") else b_
+                        if b_["k"] == "call" and b_.get("ck") == "mem" and not args(b_):
+                            name = callee(b_).split("::")[-1]
+                            d_ = ref_decl(obj(b_))
+                            nonneg = small["k"] == "int" and small["v"] >= 0 or small["k"] == "ref"
+                            if d_ is not None and nonneg:
+                                if name == "size" and not b_.get("targs"):
+                                    facts[d_] = "all"
+                                elif name.startswith("size") and b_.get("targs") == ["0"]:
+                                    facts.setdefault(d_, "dim0")
+            child = a_
+        return facts
+    for f in fs:
+        is_get = f in gets
+        pre = {p_["d"]: "all" for p_ in f.params} if is_get else {}
+        for c in f.calls():
+            cq = callee(c)
+            # (1) calls into the recursion
+            if cq.endswith("::get") and "integral_t" in cq:
+                n += 1
+                a0 = peel(args(c)[0])
+                facts = dict(pre)
+                facts.update({k: v for k, v in guard_facts(f, c).items() if v == "all" or k not in facts})
+                root = a0
+                sub = False
+                while root["k"] == "call" and root.get("ck") == "mem" and callee(root).split("::")[-1].split("<")[0] in ("tensor", "vector", "matrix", "reshape", "slice"):
+                    sub = True
+                    root = peel(obj(root))
+                d_ = root.get("d") if root["k"] == "ref" else None
+                ok = facts.get(d_) == "all"
+                R.check(ok, "R-C16-7", "%s -> get@%d" % (f.name, c["l"]), f.loc(c), "every extent of the tensor handed to integral_t::get is positive",
+                        "`%s` is reached with only %s established for `%s`: a tensor with a positive first extent and an empty inner one (3 x 0) enters the recursion, and "
+                        "integral_t<1>::get reads and writes element 0 of an empty row - outside the tensor" % (
+                            pp(c)[:60], {"dim0": "a positive first extent", None: "nothing"}.get(facts.get(d_), "nothing"), pp(root)[:20]))
+            # (2) literal-index accesses inside the recursion
+            if is_get and c.get("c") and (c.get("op") == "()" or (c.get("ck") == "mem" and cq.split("::")[-1].split("<")[0] in ("tensor", "vector", "matrix"))):
+                idx = [peel(a_) for a_ in (c["c"][1:] if c.get("op") == "()" else args(c))]
+                if len(idx) >= 1 and idx[0]["k"] == "int":
+                    o_ = peel(c["c"][0])
+                    d_ = o_.get("d") if o_["k"] == "ref" else None
+                    if d_ is None:
+                        continue
+                    n += 1
+                    facts = dict(pre)
+                    facts.update(guard_facts(f, c))
+                    R.check(facts.get(d_) in ("all", "dim0") and idx[0]["v"] == 0, "R-C16-7", "%s literal index@%d" % (f.name, c["l"]), f.loc(c),
+                            "element %d exists under the function's precondition / enclosing bound" % idx[0]["v"], "`%s` reads a fixed position that may not exist" % pp(c)[:40])
+    R.floor("R-C16-7", n, 4, "entries into / fixed-index accesses inside integral_t::get")
+
+
 def run(ctx):
     R = ctx.report
     F = ctx.facts(TUS)
     rule_polynomials(F, R, 5 if ctx.thorough else 4)
     rule_storage(F, R)
     rule_integral(F, R)
+    rule_integral_empty(F, R)
     rule_algorithms(F, R)
     rule_inferred_dimension(F, R)
     rule_compile_fail(R)
